@@ -1478,3 +1478,148 @@ def settle_guard(ctx, rule, classes, floor=1):
                 R.check(guarded or fresh, rule, f'{cq}.{fn.name} | self.{attr}.{c.func.attr}', 'under `not ...done()`',
                         f'`self.{attr}.{c.func.attr}(...)` is not guarded by `not self.{attr}.done()`: a waiter that gave up (timeout) has cancelled the future but the object still holds it, so this raises InvalidStateError in the middle of the teardown and what follows is skipped', p.loc(c))
     R.check(n >= floor, rule, f'{", ".join(classes)} | settle calls', f'{n} set_result / set_exception calls on attribute futures examined', f'only {n} found')
+
+
+# ---------------------------------------------------------------------------------------------------------------------
+def zip_star_unpack(ctx, rule, modules, floor=0):
+    """`a, b, c = zip(*rows)` transposes a list of rows -- and raises ValueError when there is no row (zip() of nothing
+    yields nothing to unpack); it also yields tuples where lists were built before.  A parser written that way loses the
+    zero-entry form of a list-valued packet."""
+    R, p = ctx.r, ctx.p
+
+    def scan(tree):
+        out = []
+        for st in [x for x in ast.walk(tree) if isinstance(x, ast.Assign) and isinstance(x.targets[0], (ast.Tuple, ast.List)) and isinstance(x.value, ast.Call) and dotted(x.value.func) == 'zip' and any(isinstance(a, ast.Starred) for a in x.value.args)]:
+            out.append(st)
+        return out
+    n = 0
+    for mn in modules:
+        m = p.modules.get(mn)
+        if m is None:
+            R.bad(rule, mn, 'anchor missing')
+            continue
+        n += 1
+        for st in scan(m.tree):
+            R.bad(rule, f'{p.qual_of(st)} | {norm(st)[:60]}', f'`{norm(st)[:70]}` unpacks the transposition of a list of rows: with zero rows zip() yields nothing and the unpacking raises ValueError, so the empty form of the packet no longer parses (and the columns become tuples)', f'{m.rel}:{st.lineno}')
+    ct = ast.parse('def f(rows):\n    a, b = zip(*rows)\n    return a, b\ndef g(rows):\n    a = [r[0] for r in rows]\n    return a\n')
+    R.check(len(scan(ct)) == 1 and n >= floor, rule, f'{", ".join(modules)} | transpositions', 'no unpacking of zip(*rows) (positive control matched)', 'positive control not matched')
+
+
+# ---------------------------------------------------------------------------------------------------------------------
+def class_attrs(p, qual):
+    """Names an instance of `qual` answers to: methods, properties, class-level names and `self.x = ...` of every method,
+    along the (resolved) base classes."""
+    out = set()
+    for ci in p.mro(qual):
+        out |= set(ci.methods) | set(ci.assigns) | set(ci.annots)
+        for fn in ci.methods.values():
+            for n in ast.walk(fn):
+                if isinstance(n, ast.Attribute) and isinstance(n.ctx, ast.Store) and isinstance(n.value, ast.Name) and n.value.id == 'self':
+                    out.add(n.attr)
+    return out
+
+
+def union_attribute(ctx, rule, modules, alias, members, narrowers, floor=1):
+    """A parameter declared with a union alias (`alias`, e.g. att.Bearer = Connection | LeCreditBasedChannel) is used
+    through attributes every member has, unless the site is narrowed (isinstance / a TypeIs helper): an attribute only one
+    member has raises AttributeError for the other, outside whatever error mapping the caller has.
+    members: {short class name: qualified name}; narrowers: {helper name: short class name it proves}."""
+    from . import paths
+    R, p = ctx.r, ctx.p
+    attrs = {}
+    for short, q in members.items():
+        if p.cls(q) is None:
+            R.bad(rule, q, 'anchor missing')
+            return
+        attrs[short] = class_attrs(p, q)
+    n = 0
+    for mn in modules:
+        m = p.modules.get(mn)
+        if m is None:
+            R.bad(rule, mn, 'anchor missing')
+            continue
+        for fn in [x for x in ast.walk(m.tree) if isinstance(x, FUNC)]:
+            for a in fn.args.args + fn.args.kwonlyargs:
+                if a.annotation is None or norm(a.annotation).strip('"\'').split('.')[-1] != alias:
+                    continue
+                if any(isinstance(s_, (ast.Assign, ast.AugAssign)) and any(isinstance(t, ast.Name) and t.id == a.arg for t in ast.walk(s_) if isinstance(getattr(t, 'ctx', None), ast.Store)) for s_ in ast.walk(fn)):
+                    continue  # rebound: not followed
+                for use in [x for x in ast.walk(fn) if isinstance(x, ast.Attribute) and isinstance(x.value, ast.Name) and x.value.id == a.arg and isinstance(x.ctx, ast.Load)]:
+                    n += 1
+                    possible = set(members)
+                    for t, pol in paths.flat_guards(use, stop=fn):
+                        if not isinstance(t, ast.Call) or not t.args or not (isinstance(t.args[0], ast.Name) and t.args[0].id == a.arg):
+                            continue
+                        f = (dotted(t.func) or '').split('.')[-1]
+                        proved = None
+                        if f == 'isinstance' and len(t.args) == 2:
+                            proved = {(dotted(e) or '').split('.')[-1] for e in (t.args[1].elts if isinstance(t.args[1], ast.Tuple) else [t.args[1]])}
+                            proved = {narrowers.get(x, x) for x in proved} & set(members)
+                        elif f in narrowers:
+                            proved = {narrowers[f]}
+                        if proved:
+                            possible &= proved if pol else (set(members) - proved)
+                    missing = sorted(s for s in possible if use.attr not in attrs[s])
+                    if missing:
+                        R.bad(rule, f'{p.qual_of(use)} | {a.arg}.{use.attr}', f'`{a.arg}.{use.attr}` is evaluated where `{a.arg}` may be a {" / ".join(missing)}, which has no attribute `{use.attr}`: AttributeError instead of the intended answer', f'{m.rel}:{use.lineno}')
+    R.check(n >= floor, rule, f'{", ".join(modules)} | uses of {alias} parameters', f'{n} attribute uses, each defined on every member possible at the site', f'only {n} uses found (floor {floor})')
+
+
+# ---------------------------------------------------------------------------------------------------------------------
+def shift_amount_data(ctx, rule, modules):
+    """`hi << 16 | lo` packs two fields; `hi << 16 + lo` shifts by 16 + lo (+ binds tighter than <<).  A shift whose amount
+    is a sum / difference / or with an element taken out of a received or supplied value (a subscript) is that slip: shift
+    amounts in protocol code are constants, names or `name - constant`."""
+    R, p = ctx.r, ctx.p
+
+    def hits(tree):
+        return [x for x in ast.walk(tree) if isinstance(x, ast.BinOp) and isinstance(x.op, (ast.LShift, ast.RShift)) and isinstance(x.right, ast.BinOp) and any(isinstance(y, ast.Subscript) for y in ast.walk(x.right))]
+    n = 0
+    for mn in modules:
+        m = p.modules.get(mn)
+        if m is None:
+            R.bad(rule, mn, 'anchor missing')
+            continue
+        n += sum(1 for x in ast.walk(m.tree) if isinstance(x, ast.BinOp) and isinstance(x.op, (ast.LShift, ast.RShift)))
+        for x in hits(m.tree):
+            R.bad(rule, f'{p.qual_of(x)} | {norm(x)[:60]}', f'`{norm(x)[:70]}` shifts by an amount that includes a data element (`{norm(x.right)[:40]}`): + and - bind tighter than << - the value meant to be or-ed / added in changes the shift count instead, and the packed field is wrong for every input but 0', f'{m.rel}:{x.lineno}')
+    ctl = ast.parse('a = r[0] << 16 + r[1]\nb = r[0] << 16 | r[1]\nc = 1 << n - 1\n')
+    R.check(len(hits(ctl)) == 1, rule, f'{", ".join(modules)} | shifts', f'{n} shifts, none by an amount containing a data element (positive control matched)', 'positive control not matched')
+
+
+# ---------------------------------------------------------------------------------------------------------------------
+def reset_before_handoff(ctx, rule, qual, buf, handoff):
+    """A reassembly buffer (`buf`, e.g. self.in_sdu) is emptied before the completed unit is handed to code that may raise
+    (`handoff`: dotted callee): on every path the last write to the buffer before the hand-off is a reset (None, b'', a
+    fresh empty container), never an accumulation.  Otherwise a raising consumer leaves the finished unit in the buffer and
+    the next unit is appended to it."""
+    from . import paths
+    R, p = ctx.r, ctx.p
+    fn = p.find(qual)
+    if fn is None:
+        R.bad(rule, qual, 'anchor missing')
+        return
+    bad, seen = [], []
+
+    def is_reset(v):
+        return (isinstance(v, ast.Constant) and v.value in (None, b'', '')) or (isinstance(v, ast.Call) and dotted(v.func) in ('bytes', 'bytearray', 'list') and not v.args) or (isinstance(v, (ast.List, ast.Tuple)) and not v.elts)
+
+    class D(paths.Domain):
+        def event(self, node, v):
+            if isinstance(node, ast.AugAssign) and dotted(node.target) == buf:
+                return ('dirty',)
+            if isinstance(node, ast.Assign):
+                for t in node.targets:
+                    if dotted(t) == buf:
+                        return ('reset' if is_reset(node.value) else 'dirty',)
+                    if isinstance(t, ast.Tuple) and isinstance(node.value, ast.Tuple) and len(t.elts) == len(node.value.elts):
+                        for a, b in zip(t.elts, node.value.elts):
+                            if dotted(a) == buf:
+                                return ('reset' if is_reset(b) else 'dirty',)
+            if isinstance(node, ast.Call) and dotted(node.func) == handoff:
+                seen.append(node)
+                if v != 'reset':
+                    bad.append(node)
+            return (v,)
+    paths.run(fn, D(), 'dirty')
+    R.check(bool(seen) and not bad, rule, f'{qual} | {buf} before {handoff}', f'{buf} is reset before the unit is handed to {handoff}', f'{handoff}(...) is called while {buf} still holds the completed unit: if the consumer raises, the reset after the call is skipped and the next unit is appended to the old one (dropped as an overflow, or delivered with the old bytes in front)', p.loc(bad[0]) if bad else p.loc(fn))
